@@ -1,11 +1,13 @@
-import SMGo.Proofs.FiatPrim
-import SMGo.Proofs.FiatSmallP
 /-
   Modulus-independent blocks of the Fiat-Crypto word-by-word Montgomery code (property C16):
   a row product x·(b0..b3) as five limbs, carry-chain additions, the reduction addition with
-  shift, and the final conditional subtraction.  Each block is a small function over limb lists
-  with a specification proved by `omega` in isolation.
+  shift, and the final conditional subtraction.  Each block is a small function of a few naturals
+  (explicit limb arguments: the kernel compares `block x y z` with `[x', y', z']` cheaply) with a
+  specification proved by `omega` in isolation.  Core Lean only.
 -/
+import SMGo.Proofs.FiatPrim
+import SMGo.Proofs.FiatSmallP
+set_option linter.unusedVariables false
 namespace SMGo.Proofs.Fiat
 open SMGo SMGo.Model.FiatPrim
 open SMGo.Proofs.FiatSmallP (v4 v4_lt chain_sub chain_add)
@@ -14,26 +16,42 @@ open SMGo.Proofs.FiatSmallP (v4 v4_lt chain_sub chain_add)
 def L5 (l : List Nat) (v : Nat) : Prop :=
   ∃ t0 t1 t2 t3 t4, l = [t0, t1, t2, t3, t4] ∧ t0 < 18446744073709551616 ∧ t1 < 18446744073709551616 ∧
     t2 < 18446744073709551616 ∧ t3 < 18446744073709551616 ∧ t4 < 18446744073709551616 ∧
-    t0 + t1 * 18446744073709551616 + t2 * 340282366920938463463374607431768211456
-      + t3 * 6277101735386680763835789423207666416102355444464034512896
-      + t4 * 115792089237316195423570985008687907853269984665640564039457584007913129639936 = v
+    t0 + t1 * 18446744073709551616 + t2 * 340282366920938463463374607431768211456 + t3 * 6277101735386680763835789423207666416102355444464034512896 + t4 * 115792089237316195423570985008687907853269984665640564039457584007913129639936 = v
 
 /-- six limbs below 2^64 with value `v` -/
 def L6 (l : List Nat) (v : Nat) : Prop :=
   ∃ t0 t1 t2 t3 t4 t5, l = [t0, t1, t2, t3, t4, t5] ∧ t0 < 18446744073709551616 ∧ t1 < 18446744073709551616 ∧
     t2 < 18446744073709551616 ∧ t3 < 18446744073709551616 ∧ t4 < 18446744073709551616 ∧ t5 < 18446744073709551616 ∧
-    t0 + t1 * 18446744073709551616 + t2 * 340282366920938463463374607431768211456
-      + t3 * 6277101735386680763835789423207666416102355444464034512896
-      + t4 * 115792089237316195423570985008687907853269984665640564039457584007913129639936
-      + t5 * 2135987035920910082395021706169552114602704522356652769947041607822219725780640550022962086936576 = v
+    t0 + t1 * 18446744073709551616 + t2 * 340282366920938463463374607431768211456 + t3 * 6277101735386680763835789423207666416102355444464034512896 + t4 * 115792089237316195423570985008687907853269984665640564039457584007913129639936 + t5 * 2135987035920910082395021706169552114602704522356652769947041607822219725780640550022962086936576 = v
 
-theorem L5.head {l : List Nat} {v : Nat} (h : L5 l v) : l.getD 0 0 = v % 18446744073709551616 := by
-  obtain ⟨t0, t1, t2, t3, t4, rfl, h0, h1, h2, h3, h4, hv⟩ := h
-  simp only [List.getD_cons_zero]; omega
+theorem L5.elim {t0 t1 t2 t3 t4 v : Nat} (h : L5 [t0, t1, t2, t3, t4] v) :
+    t0 < 18446744073709551616 ∧ t1 < 18446744073709551616 ∧ t2 < 18446744073709551616 ∧ t3 < 18446744073709551616 ∧ t4 < 18446744073709551616 ∧
+    t0 + t1 * 18446744073709551616 + t2 * 340282366920938463463374607431768211456 + t3 * 6277101735386680763835789423207666416102355444464034512896 + t4 * 115792089237316195423570985008687907853269984665640564039457584007913129639936 = v := by
+  obtain ⟨s0, s1, s2, s3, s4, e, h⟩ := h
+  simp only [List.cons.injEq, and_true] at e
+  obtain ⟨rfl, rfl, rfl, rfl, rfl⟩ := e
+  exact h
 
-theorem L6.head {l : List Nat} {v : Nat} (h : L6 l v) : l.getD 0 0 = v % 18446744073709551616 := by
-  obtain ⟨t0, t1, t2, t3, t4, t5, rfl, h0, h1, h2, h3, h4, h5, hv⟩ := h
-  simp only [List.getD_cons_zero]; omega
+theorem L6.elim {t0 t1 t2 t3 t4 t5 v : Nat} (h : L6 [t0, t1, t2, t3, t4, t5] v) :
+    t0 < 18446744073709551616 ∧ t1 < 18446744073709551616 ∧ t2 < 18446744073709551616 ∧ t3 < 18446744073709551616 ∧ t4 < 18446744073709551616 ∧ t5 < 18446744073709551616 ∧
+    t0 + t1 * 18446744073709551616 + t2 * 340282366920938463463374607431768211456 + t3 * 6277101735386680763835789423207666416102355444464034512896 + t4 * 115792089237316195423570985008687907853269984665640564039457584007913129639936 + t5 * 2135987035920910082395021706169552114602704522356652769947041607822219725780640550022962086936576 = v := by
+  obtain ⟨s0, s1, s2, s3, s4, s5, e, h⟩ := h
+  simp only [List.cons.injEq, and_true] at e
+  obtain ⟨rfl, rfl, rfl, rfl, rfl, rfl⟩ := e
+  exact h
+
+theorem L5.head_lt {t0 t1 t2 t3 t4 v : Nat} (h : L5 [t0, t1, t2, t3, t4] v) : t0 < 18446744073709551616 := h.elim.1
+theorem L6.head_lt {t0 t1 t2 t3 t4 t5 v : Nat} (h : L6 [t0, t1, t2, t3, t4, t5] v) : t0 < 18446744073709551616 := h.elim.1
+
+theorem L5.head_eq {t0 t1 t2 t3 t4 v : Nat} (h : L5 [t0, t1, t2, t3, t4] v) : t0 = v % 18446744073709551616 := by
+  obtain ⟨h0, h1, h2, h3, h4, hv⟩ := h.elim; omega
+theorem L6.head_eq {t0 t1 t2 t3 t4 t5 v : Nat} (h : L6 [t0, t1, t2, t3, t4, t5] v) : t0 = v % 18446744073709551616 := by
+  obtain ⟨h0, h1, h2, h3, h4, h5, hv⟩ := h.elim; omega
+
+/-- four limbs (a canonical-size value) as five limbs with top limb 0 -/
+theorem L5.of_four {t0 t1 t2 t3 : Nat} (h0 : t0 < 18446744073709551616) (h1 : t1 < 18446744073709551616) (h2 : t2 < 18446744073709551616) (h3 : t3 < 18446744073709551616) :
+    L5 [t0, t1, t2, t3, 0] (v4 t0 t1 t2 t3) :=
+  ⟨t0, t1, t2, t3, 0, rfl, h0, h1, h2, h3, by omega, by rw [Nat.zero_mul, Nat.add_zero]⟩
 
 /-- 5-limb row from four 128-bit products given as (hi, lo) pairs -/
 def rowOf (h0 l0 h1 l1 h2 l2 h3 l3 : Nat) : List Nat :=
@@ -42,18 +60,15 @@ def rowOf (h0 l0 h1 l1 h2 l2 h3 l3 : Nat) : List Nat :=
    (add64c h2 l3 (add64c h1 l2 (add64c h0 l1 0)) + h3) % 18446744073709551616]
 
 theorem rowOf_spec (P0 P1 P2 P3 : Nat)
-    (h0 : P0 ≤ 340282366920938463426481119284349108225) (h1 : P1 ≤ 340282366920938463426481119284349108225)
-    (h2 : P2 ≤ 340282366920938463426481119284349108225) (h3 : P3 ≤ 340282366920938463426481119284349108225) :
+    (h0 : P0 ≤ 340282366920938463426481119284349108225) (h1 : P1 ≤ 340282366920938463426481119284349108225) (h2 : P2 ≤ 340282366920938463426481119284349108225) (h3 : P3 ≤ 340282366920938463426481119284349108225) :
     L5 (rowOf (P0 / 18446744073709551616) (P0 % 18446744073709551616) (P1 / 18446744073709551616) (P1 % 18446744073709551616)
           (P2 / 18446744073709551616) (P2 % 18446744073709551616) (P3 / 18446744073709551616) (P3 % 18446744073709551616))
-       (P0 + P1 * 18446744073709551616 + P2 * 340282366920938463463374607431768211456
-          + P3 * 6277101735386680763835789423207666416102355444464034512896) := by
+       (P0 + P1 * 18446744073709551616 + P2 * 340282366920938463463374607431768211456 + P3 * 6277101735386680763835789423207666416102355444464034512896) := by
   refine ⟨_, _, _, _, _, rfl, ?_⟩
   unfold add64s add64c
   omega
 
-theorem mul_le_sq {a b : Nat} (ha : a < 18446744073709551616) (hb : b < 18446744073709551616) :
-    a * b ≤ 340282366920938463426481119284349108225 :=
+theorem mul_le_sq {a b : Nat} (ha : a < 18446744073709551616) (hb : b < 18446744073709551616) : a * b ≤ 340282366920938463426481119284349108225 :=
   Nat.mul_le_mul (show a ≤ 18446744073709551615 by omega) (show b ≤ 18446744073709551615 by omega)
 
 /-- the row x·(b0,b1,b2,b3) as the generated code computes it -/
@@ -63,96 +78,81 @@ def mulRow (x b0 b1 b2 b3 : Nat) : List Nat :=
 
 theorem mulRow_spec {x b0 b1 b2 b3 : Nat} (hx : x < 18446744073709551616) (h0 : b0 < 18446744073709551616)
     (h1 : b1 < 18446744073709551616) (h2 : b2 < 18446744073709551616) (h3 : b3 < 18446744073709551616) :
-    L5 (mulRow x b0 b1 b2 b3)
-      (x * (b0 + b1 * 18446744073709551616 + b2 * 340282366920938463463374607431768211456
-          + b3 * 6277101735386680763835789423207666416102355444464034512896)) := by
+    L5 (mulRow x b0 b1 b2 b3) (x * v4 b0 b1 b2 b3) := by
   have h := rowOf_spec (x * b0) (x * b1) (x * b2) (x * b3) (mul_le_sq hx h0) (mul_le_sq hx h1)
     (mul_le_sq hx h2) (mul_le_sq hx h3)
-  have e : x * (b0 + b1 * 18446744073709551616 + b2 * 340282366920938463463374607431768211456
-          + b3 * 6277101735386680763835789423207666416102355444464034512896)
-      = x * b0 + x * b1 * 18446744073709551616 + x * b2 * 340282366920938463463374607431768211456
-          + x * b3 * 6277101735386680763835789423207666416102355444464034512896 := by
-    simp only [Nat.mul_add, Nat.mul_assoc]
+  have e : x * v4 b0 b1 b2 b3 = x * b0 + x * b1 * 18446744073709551616 + x * b2 * 340282366920938463463374607431768211456 + x * b3 * 6277101735386680763835789423207666416102355444464034512896 := by
+    simp only [v4, Nat.mul_add, Nat.mul_assoc]
   rw [e]; exact h
 
 /-- 5 limbs + 5 limbs → 6 limbs -/
-def addRow (t r : List Nat) : List Nat :=
-  let c0 := add64c (t.getD 0 0) (r.getD 0 0) 0
-  let c1 := add64c (t.getD 1 0) (r.getD 1 0) c0
-  let c2 := add64c (t.getD 2 0) (r.getD 2 0) c1
-  let c3 := add64c (t.getD 3 0) (r.getD 3 0) c2
-  [add64s (t.getD 0 0) (r.getD 0 0) 0, add64s (t.getD 1 0) (r.getD 1 0) c0,
-   add64s (t.getD 2 0) (r.getD 2 0) c1, add64s (t.getD 3 0) (r.getD 3 0) c2,
-   add64s (t.getD 4 0) (r.getD 4 0) c3, add64c (t.getD 4 0) (r.getD 4 0) c3]
+def addRow (t0 t1 t2 t3 t4 r0 r1 r2 r3 r4 : Nat) : List Nat :=
+  [add64s t0 r0 0, add64s t1 r1 (add64c t0 r0 0),
+   add64s t2 r2 (add64c t1 r1 (add64c t0 r0 0)),
+   add64s t3 r3 (add64c t2 r2 (add64c t1 r1 (add64c t0 r0 0))),
+   add64s t4 r4 (add64c t3 r3 (add64c t2 r2 (add64c t1 r1 (add64c t0 r0 0)))),
+   add64c t4 r4 (add64c t3 r3 (add64c t2 r2 (add64c t1 r1 (add64c t0 r0 0))))]
 
-theorem addRow_spec {t r : List Nat} {vt vr : Nat} (ht : L5 t vt) (hr : L5 r vr) :
-    L6 (addRow t r) (vt + vr) := by
-  obtain ⟨t0, t1, t2, t3, t4, rfl, ht0, ht1, ht2, ht3, ht4, hvt⟩ := ht
-  obtain ⟨r0, r1, r2, r3, r4, rfl, hr0, hr1, hr2, hr3, hr4, hvr⟩ := hr
+theorem addRow_spec {t0 t1 t2 t3 t4 r0 r1 r2 r3 r4 vt vr : Nat}
+    (ht : L5 [t0, t1, t2, t3, t4] vt) (hr : L5 [r0, r1, r2, r3, r4] vr) :
+    L6 (addRow t0 t1 t2 t3 t4 r0 r1 r2 r3 r4) (vt + vr) := by
+  obtain ⟨ht0, ht1, ht2, ht3, ht4, hvt⟩ := ht.elim
+  obtain ⟨hr0, hr1, hr2, hr3, hr4, hvr⟩ := hr.elim
   refine ⟨_, _, _, _, _, _, rfl, ?_⟩
-  simp only [List.getD_cons_zero, List.getD_cons_succ]
+  clear ht hr
   unfold add64s add64c
   omega
 
-/-- reduction add with shift, first round (T has 5 limbs) -/
-def redAdd5 (t r : List Nat) : List Nat :=
-  let c0 := add64c (t.getD 0 0) (r.getD 0 0) 0
-  let c1 := add64c (t.getD 1 0) (r.getD 1 0) c0
-  let c2 := add64c (t.getD 2 0) (r.getD 2 0) c1
-  let c3 := add64c (t.getD 3 0) (r.getD 3 0) c2
-  [add64s (t.getD 1 0) (r.getD 1 0) c0,
-   add64s (t.getD 2 0) (r.getD 2 0) c1, add64s (t.getD 3 0) (r.getD 3 0) c2,
-   add64s (t.getD 4 0) (r.getD 4 0) c3, add64c (t.getD 4 0) (r.getD 4 0) c3]
+/-- reduction add with shift, T has 5 limbs (first round) -/
+def redAdd5 (t0 t1 t2 t3 t4 r0 r1 r2 r3 r4 : Nat) : List Nat :=
+  [add64s t1 r1 (add64c t0 r0 0),
+   add64s t2 r2 (add64c t1 r1 (add64c t0 r0 0)),
+   add64s t3 r3 (add64c t2 r2 (add64c t1 r1 (add64c t0 r0 0))),
+   add64s t4 r4 (add64c t3 r3 (add64c t2 r2 (add64c t1 r1 (add64c t0 r0 0)))),
+   add64c t4 r4 (add64c t3 r3 (add64c t2 r2 (add64c t1 r1 (add64c t0 r0 0))))]
 
-theorem redAdd5_spec {t r : List Nat} {vt vr : Nat} (ht : L5 t vt) (hr : L5 r vr)
+theorem redAdd5_spec {t0 t1 t2 t3 t4 r0 r1 r2 r3 r4 vt vr : Nat}
+    (ht : L5 [t0, t1, t2, t3, t4] vt) (hr : L5 [r0, r1, r2, r3, r4] vr)
     (hz : (vt + vr) % 18446744073709551616 = 0) :
-    L5 (redAdd5 t r) ((vt + vr) / 18446744073709551616) := by
-  obtain ⟨t0, t1, t2, t3, t4, rfl, ht0, ht1, ht2, ht3, ht4, hvt⟩ := ht
-  obtain ⟨r0, r1, r2, r3, r4, rfl, hr0, hr1, hr2, hr3, hr4, hvr⟩ := hr
+    L5 (redAdd5 t0 t1 t2 t3 t4 r0 r1 r2 r3 r4) ((vt + vr) / 18446744073709551616) := by
+  obtain ⟨ht0, ht1, ht2, ht3, ht4, hvt⟩ := ht.elim
+  obtain ⟨hr0, hr1, hr2, hr3, hr4, hvr⟩ := hr.elim
   refine ⟨_, _, _, _, _, rfl, ?_⟩
-  simp only [List.getD_cons_zero, List.getD_cons_succ]
+  clear ht hr
   unfold add64s add64c
   omega
 
-/-- reduction add with shift, later rounds (T has 6 limbs) -/
-def redAdd6 (t r : List Nat) : List Nat :=
-  let c0 := add64c (t.getD 0 0) (r.getD 0 0) 0
-  let c1 := add64c (t.getD 1 0) (r.getD 1 0) c0
-  let c2 := add64c (t.getD 2 0) (r.getD 2 0) c1
-  let c3 := add64c (t.getD 3 0) (r.getD 3 0) c2
-  [add64s (t.getD 1 0) (r.getD 1 0) c0,
-   add64s (t.getD 2 0) (r.getD 2 0) c1, add64s (t.getD 3 0) (r.getD 3 0) c2,
-   add64s (t.getD 4 0) (r.getD 4 0) c3,
-   (add64c (t.getD 4 0) (r.getD 4 0) c3 + t.getD 5 0) % 18446744073709551616]
+/-- reduction add with shift, T has 6 limbs (later rounds) -/
+def redAdd6 (t0 t1 t2 t3 t4 t5 r0 r1 r2 r3 r4 : Nat) : List Nat :=
+  [add64s t1 r1 (add64c t0 r0 0),
+   add64s t2 r2 (add64c t1 r1 (add64c t0 r0 0)),
+   add64s t3 r3 (add64c t2 r2 (add64c t1 r1 (add64c t0 r0 0))),
+   add64s t4 r4 (add64c t3 r3 (add64c t2 r2 (add64c t1 r1 (add64c t0 r0 0)))),
+   (add64c t4 r4 (add64c t3 r3 (add64c t2 r2 (add64c t1 r1 (add64c t0 r0 0)))) + t5) % 18446744073709551616]
 
-theorem redAdd6_spec {t r : List Nat} {vt vr : Nat} (ht : L6 t vt) (hr : L5 r vr)
-    (hz : (vt + vr) % 18446744073709551616 = 0)
-    (hlt : vt + vr < 39402006196394479212279040100143613805079739270465446667948293404245721771497210611414266254884915640806627990306816) :
-    L5 (redAdd6 t r) ((vt + vr) / 18446744073709551616) := by
-  obtain ⟨t0, t1, t2, t3, t4, t5, rfl, ht0, ht1, ht2, ht3, ht4, ht5, hvt⟩ := ht
-  obtain ⟨r0, r1, r2, r3, r4, rfl, hr0, hr1, hr2, hr3, hr4, hvr⟩ := hr
+theorem redAdd6_spec {t0 t1 t2 t3 t4 t5 r0 r1 r2 r3 r4 vt vr : Nat}
+    (ht : L6 [t0, t1, t2, t3, t4, t5] vt) (hr : L5 [r0, r1, r2, r3, r4] vr)
+    (hz : (vt + vr) % 18446744073709551616 = 0) (hlt : vt + vr < 39402006196394479212279040100143613805079739270465446667948293404245721771497210611414266254884915640806627990306816) :
+    L5 (redAdd6 t0 t1 t2 t3 t4 t5 r0 r1 r2 r3 r4) ((vt + vr) / 18446744073709551616) := by
+  obtain ⟨ht0, ht1, ht2, ht3, ht4, ht5, hvt⟩ := ht.elim
+  obtain ⟨hr0, hr1, hr2, hr3, hr4, hvr⟩ := hr.elim
   refine ⟨_, _, _, _, _, rfl, ?_⟩
-  simp only [List.getD_cons_zero, List.getD_cons_succ]
+  clear ht hr
   unfold add64s add64c
   omega
-
 
 /-- final conditional subtraction of the modulus (m0..m3) from a 5-limb value -/
-def condSub (m0 m1 m2 m3 : Nat) (t : List Nat) : List Nat :=
-  let b0 := sub64b (t.getD 0 0) m0 0
-  let b1 := sub64b (t.getD 1 0) m1 b0
-  let b2 := sub64b (t.getD 2 0) m2 b1
-  let b3 := sub64b (t.getD 3 0) m3 b2
-  let b4 := sub64b (t.getD 4 0) 0 b3
-  [cmov b4 (sub64d (t.getD 0 0) m0 0) (t.getD 0 0),
-   cmov b4 (sub64d (t.getD 1 0) m1 b0) (t.getD 1 0),
-   cmov b4 (sub64d (t.getD 2 0) m2 b1) (t.getD 2 0),
-   cmov b4 (sub64d (t.getD 3 0) m3 b2) (t.getD 3 0)]
+def condSub (m0 m1 m2 m3 t0 t1 t2 t3 t4 : Nat) : List Nat :=
+  [cmov (sub64b t4 0 (sub64b t3 m3 (sub64b t2 m2 (sub64b t1 m1 (sub64b t0 m0 0))))) (sub64d t0 m0 0) t0,
+   cmov (sub64b t4 0 (sub64b t3 m3 (sub64b t2 m2 (sub64b t1 m1 (sub64b t0 m0 0)))))
+     (sub64d t1 m1 (sub64b t0 m0 0)) t1,
+   cmov (sub64b t4 0 (sub64b t3 m3 (sub64b t2 m2 (sub64b t1 m1 (sub64b t0 m0 0)))))
+     (sub64d t2 m2 (sub64b t1 m1 (sub64b t0 m0 0))) t2,
+   cmov (sub64b t4 0 (sub64b t3 m3 (sub64b t2 m2 (sub64b t1 m1 (sub64b t0 m0 0)))))
+     (sub64d t3 m3 (sub64b t2 m2 (sub64b t1 m1 (sub64b t0 m0 0)))) t3]
 
 theorem condSub_final {A M T d4 t4 b3 b4 v : Nat}
-    (hA : A < 115792089237316195423570985008687907853269984665640564039457584007913129639936)
-    (hM : M < 115792089237316195423570985008687907853269984665640564039457584007913129639936)
-    (hT : T < 115792089237316195423570985008687907853269984665640564039457584007913129639936)
+    (hA : A < 115792089237316195423570985008687907853269984665640564039457584007913129639936) (hM : M < 115792089237316195423570985008687907853269984665640564039457584007913129639936) (hT : T < 115792089237316195423570985008687907853269984665640564039457584007913129639936)
     (e : A + M + 0 = T + b3 * 115792089237316195423570985008687907853269984665640564039457584007913129639936)
     (e4 : d4 + 0 + b3 = t4 + b4 * 18446744073709551616)
     (hd4 : d4 < 18446744073709551616) (ht4 : t4 < 18446744073709551616) (hb3 : b3 ≤ 1) (hb4 : b4 ≤ 1)
@@ -161,14 +161,14 @@ theorem condSub_final {A M T d4 t4 b3 b4 v : Nat}
     (b4 = 0 ∧ A < M ∧ v = A + M) ∨ (b4 = 1 ∧ T < M ∧ v = T) := by
   omega
 
-theorem condSub_spec {m0 m1 m2 m3 : Nat} {t : List Nat} {v : Nat}
-    (hm0 : m0 < 18446744073709551616) (hm1 : m1 < 18446744073709551616)
-    (hm2 : m2 < 18446744073709551616) (hm3 : m3 < 18446744073709551616)
-    (ht : L5 t v) (hv : v < 2 * v4 m0 m1 m2 m3) :
-    Canon (v4 m0 m1 m2 m3) (condSub m0 m1 m2 m3 t) ∧
-      eval (condSub m0 m1 m2 m3 t) = v % v4 m0 m1 m2 m3 := by
-  obtain ⟨t0, t1, t2, t3, t4, rfl, ht0, ht1, ht2, ht3, ht4, hvt⟩ := ht
-  simp only [condSub, List.getD_cons_zero, List.getD_cons_succ]
+theorem condSub_spec {m0 m1 m2 m3 t0 t1 t2 t3 t4 v : Nat}
+    (hm0 : m0 < 18446744073709551616) (hm1 : m1 < 18446744073709551616) (hm2 : m2 < 18446744073709551616) (hm3 : m3 < 18446744073709551616)
+    (ht : L5 [t0, t1, t2, t3, t4] v) (hv : v < 2 * v4 m0 m1 m2 m3) :
+    Canon (v4 m0 m1 m2 m3) (condSub m0 m1 m2 m3 t0 t1 t2 t3 t4) ∧
+      eval (condSub m0 m1 m2 m3 t0 t1 t2 t3 t4) = v % v4 m0 m1 m2 m3 := by
+  obtain ⟨ht0, ht1, ht2, ht3, ht4, hvt⟩ := ht.elim
+  clear ht
+  unfold condSub
   obtain ⟨e0, hd0, hb0⟩ := sub64_spec ht0 hm0 (Nat.zero_le 1)
   generalize sub64d t0 m0 0 = d0 at *
   generalize sub64b t0 m0 0 = b0 at *
@@ -185,8 +185,9 @@ theorem condSub_spec {m0 m1 m2 m3 : Nat} {t : List Nat} {v : Nat}
   generalize sub64d t4 0 b3 = d4 at *
   generalize sub64b t4 0 b3 = b4 at *
   have hch := chain_sub e0 e1 e2 e3
+  have hvt' : v4 t0 t1 t2 t3 + t4 * 115792089237316195423570985008687907853269984665640564039457584007913129639936 = v := hvt
   have hfin := condSub_final (v4_lt hd0 hd1 hd2 hd3) (v4_lt hm0 hm1 hm2 hm3) (v4_lt ht0 ht1 ht2 ht3)
-    hch e4 hd4 ht4 hb3 hb4 hvt hv
+    hch e4 hd4 ht4 hb3 hb4 hvt' hv
   rcases hfin with ⟨rfl, h1, h2⟩ | ⟨rfl, h1, h2⟩
   · rw [cmov_zero _ hd0, cmov_zero _ hd1, cmov_zero _ hd2, cmov_zero _ hd3]
     refine ⟨canon_mk hd0 hd1 hd2 hd3 h1, ?_⟩
@@ -198,5 +199,112 @@ theorem condSub_spec {m0 m1 m2 m3 : Nat} {t : List Nat} {v : Nat}
     rw [eval_four]
     show v4 t0 t1 t2 t3 = v % v4 m0 m1 m2 m3
     rw [h2, Nat.mod_eq_of_lt h1]
+
+/-- four rounds of `v' · 2^64 = v + a_i · B + q_i · M` compose to the Montgomery product -/
+theorem mont_compose {a0 a1 a2 a3 B v1 v2 v3 v4' q1 q2 q3 q4 M : Nat}
+    (e1 : v1 * 18446744073709551616 = a0 * B + q1 * M)
+    (e2 : v2 * 18446744073709551616 = v1 + a1 * B + q2 * M)
+    (e3 : v3 * 18446744073709551616 = v2 + a2 * B + q3 * M)
+    (e4 : v4' * 18446744073709551616 = v3 + a3 * B + q4 * M) :
+    v4' * 115792089237316195423570985008687907853269984665640564039457584007913129639936 = v4 a0 a1 a2 a3 * B + (q1 + q2 * 18446744073709551616 + q3 * 340282366920938463463374607431768211456 + q4 * 6277101735386680763835789423207666416102355444464034512896) * M := by
+  unfold v4
+  rw [Nat.add_mul, Nat.add_mul, Nat.add_mul, Nat.mul_right_comm a1, Nat.mul_right_comm a2, Nat.mul_right_comm a3,
+    Nat.add_mul, Nat.add_mul, Nat.add_mul, Nat.mul_right_comm q2, Nat.mul_right_comm q3, Nat.mul_right_comm q4]
+  generalize a0 * B = P0 at *
+  generalize a1 * B = P1 at *
+  generalize a2 * B = P2 at *
+  generalize a3 * B = P3 at *
+  generalize q1 * M = Q1 at *
+  generalize q2 * M = Q2 at *
+  generalize q3 * M = Q3 at *
+  generalize q4 * M = Q4 at *
+  apply Nat.le_antisymm <;> omega
+
+/-- from `v · R = A · B + k · M` to the residue statement -/
+theorem mont_residue {v A B k M o : Nat} (h : v * 115792089237316195423570985008687907853269984665640564039457584007913129639936 = A * B + k * M) (ho : o = v % M) :
+    (o * 115792089237316195423570985008687907853269984665640564039457584007913129639936) % M = (A * B) % M := by
+  rw [ho, Nat.mod_mul_mod, h, Nat.add_mul_mod_self_right]
+
+
+/-! ### blocks of `ToMontgomery` / `FromMontgomery` (top limbs are inlined expressions there) -/
+
+/-- four limbs below 2^64 with value `v` -/
+def L4 (l : List Nat) (v : Nat) : Prop :=
+  ∃ t0 t1 t2 t3, l = [t0, t1, t2, t3] ∧ t0 < 18446744073709551616 ∧ t1 < 18446744073709551616 ∧ t2 < 18446744073709551616 ∧ t3 < 18446744073709551616 ∧ v4 t0 t1 t2 t3 = v
+
+theorem L4.elim {t0 t1 t2 t3 v : Nat} (h : L4 [t0, t1, t2, t3] v) :
+    t0 < 18446744073709551616 ∧ t1 < 18446744073709551616 ∧ t2 < 18446744073709551616 ∧ t3 < 18446744073709551616 ∧
+    t0 + t1 * 18446744073709551616 + t2 * 340282366920938463463374607431768211456 + t3 * 6277101735386680763835789423207666416102355444464034512896 = v := by
+  obtain ⟨s0, s1, s2, s3, e, h⟩ := h
+  simp only [List.cons.injEq, and_true] at e
+  obtain ⟨rfl, rfl, rfl, rfl⟩ := e
+  exact h
+
+theorem L4.head_lt {t0 t1 t2 t3 v : Nat} (h : L4 [t0, t1, t2, t3] v) : t0 < 18446744073709551616 := h.elim.1
+theorem L4.head_eq {t0 t1 t2 t3 v : Nat} (h : L4 [t0, t1, t2, t3] v) : t0 = v % 18446744073709551616 := by
+  obtain ⟨h0, h1, h2, h3, hv⟩ := h.elim; omega
+
+theorem L4.mk {t0 t1 t2 t3 : Nat} (h0 : t0 < 18446744073709551616) (h1 : t1 < 18446744073709551616) (h2 : t2 < 18446744073709551616) (h3 : t3 < 18446744073709551616) :
+    L4 [t0, t1, t2, t3] (v4 t0 t1 t2 t3) := ⟨t0, t1, t2, t3, rfl, h0, h1, h2, h3, rfl⟩
+
+theorem L4.to_L5 {t0 t1 t2 t3 v : Nat} (h : L4 [t0, t1, t2, t3] v) : L5 [t0, t1, t2, t3, 0] v := by
+  obtain ⟨h0, h1, h2, h3, hv⟩ := h.elim
+  exact ⟨t0, t1, t2, t3, 0, rfl, h0, h1, h2, h3, by omega, by rw [Nat.zero_mul, Nat.add_zero]; exact hv⟩
+
+/-- 5 limbs + 5 limbs → 5 limbs (`ToMontgomery`: the sum is known to fit) -/
+def addRow5 (t0 t1 t2 t3 t4 r0 r1 r2 r3 r4 : Nat) : List Nat :=
+  [add64s t0 r0 0, add64s t1 r1 (add64c t0 r0 0),
+   add64s t2 r2 (add64c t1 r1 (add64c t0 r0 0)),
+   add64s t3 r3 (add64c t2 r2 (add64c t1 r1 (add64c t0 r0 0))),
+   ((add64c t3 r3 (add64c t2 r2 (add64c t1 r1 (add64c t0 r0 0))) + t4) % 18446744073709551616 + r4) % 18446744073709551616]
+
+theorem addRow5_spec {t0 t1 t2 t3 t4 r0 r1 r2 r3 r4 vt vr : Nat}
+    (ht : L5 [t0, t1, t2, t3, t4] vt) (hr : L5 [r0, r1, r2, r3, r4] vr) (hlt : vt + vr < 2135987035920910082395021706169552114602704522356652769947041607822219725780640550022962086936576) :
+    L5 (addRow5 t0 t1 t2 t3 t4 r0 r1 r2 r3 r4) (vt + vr) := by
+  obtain ⟨ht0, ht1, ht2, ht3, ht4, hvt⟩ := ht.elim
+  obtain ⟨hr0, hr1, hr2, hr3, hr4, hvr⟩ := hr.elim
+  refine ⟨_, _, _, _, _, rfl, ?_⟩
+  clear ht hr
+  unfold add64s add64c
+  omega
+
+/-- `FromMontgomery`: add one limb to a 4-limb value (the sum is known to fit) -/
+def addA4 (u0 u1 u2 u3 a : Nat) : List Nat :=
+  [add64s u0 a 0, add64s u1 0 (add64c u0 a 0), add64s u2 0 (add64c u1 0 (add64c u0 a 0)),
+   (add64c u2 0 (add64c u1 0 (add64c u0 a 0)) + u3) % 18446744073709551616]
+
+theorem addA4_spec {u0 u1 u2 u3 a v : Nat} (hu : L4 [u0, u1, u2, u3] v) (ha : a < 18446744073709551616)
+    (hlt : v + a < 115792089237316195423570985008687907853269984665640564039457584007913129639936) : L4 (addA4 u0 u1 u2 u3 a) (v + a) := by
+  obtain ⟨h0, h1, h2, h3, hv⟩ := hu.elim
+  refine ⟨_, _, _, _, rfl, ?_⟩
+  clear hu
+  unfold add64s add64c v4
+  omega
+
+/-- `FromMontgomery`: reduction add with shift on a 4-limb value (the quotient is known to fit) -/
+def redAdd4 (s0 s1 s2 s3 r0 r1 r2 r3 r4 : Nat) : List Nat :=
+  [add64s s1 r1 (add64c s0 r0 0),
+   add64s s2 r2 (add64c s1 r1 (add64c s0 r0 0)),
+   add64s s3 r3 (add64c s2 r2 (add64c s1 r1 (add64c s0 r0 0))),
+   (add64c s3 r3 (add64c s2 r2 (add64c s1 r1 (add64c s0 r0 0))) + r4) % 18446744073709551616]
+
+theorem redAdd4_spec {s0 s1 s2 s3 r0 r1 r2 r3 r4 vs vr : Nat}
+    (hs : L4 [s0, s1, s2, s3] vs) (hr : L5 [r0, r1, r2, r3, r4] vr)
+    (hz : (vs + vr) % 18446744073709551616 = 0) (hlt : vs + vr < 2135987035920910082395021706169552114602704522356652769947041607822219725780640550022962086936576) :
+    L4 (redAdd4 s0 s1 s2 s3 r0 r1 r2 r3 r4) ((vs + vr) / 18446744073709551616) := by
+  obtain ⟨hs0, hs1, hs2, hs3, hvs⟩ := hs.elim
+  obtain ⟨hr0, hr1, hr2, hr3, hr4, hvr⟩ := hr.elim
+  refine ⟨_, _, _, _, rfl, ?_⟩
+  clear hs hr
+  unfold add64s add64c v4
+  omega
+
+/-- cancel the Montgomery radix: `x·R ≡ y·R`, `R·R⁻¹ ≡ 1` ⟹ `x ≡ y` -/
+theorem mod_cancel {x y r ri m : Nat} (h : (x * r) % m = (y * r) % m) (hr : (r * ri) % m = 1) :
+    x % m = y % m := by
+  have key : ∀ z : Nat, z % m = ((z * r) % m * ri) % m := by
+    intro z
+    rw [Nat.mod_mul_mod, Nat.mul_assoc, Nat.mul_mod z (r * ri) m, hr, Nat.mul_one, Nat.mod_mod]
+  rw [key x, key y, h]
 
 end SMGo.Proofs.Fiat
